@@ -342,10 +342,20 @@ contract(f"{FH}::ForecastingHorizon.to_out_of_sample", "C02", cases=SELF_CASES, 
          raises=[("ValueError", lambda A: (not A.self.attrs["_is_relative"]) and A.cutoff is None)],
          result=_part_result, ensures=[("suffix-with-steps>0", _out_sample_post)])
 
-contract(f"{FH}::ForecastingHorizon.to_indexer", "C02", cases=SELF_CASES,
-         frame=lambda A: [A.self], inputs=_self_inputs(lambda B, case: {"cutoff": B.int("cutoff"), "from_cutoff": True}),
+def _indexer_returns(A):
+    rel = rel_vals(A)
+    if A.from_cutoff is True:
+        return Seq(Len(vals(A.self)), lambda i: ops.simp(ops.to_z3(rel.fn(i)) - 1), kind="Int64Index")
+    # from_cutoff=False: zero-based relative to the FIRST step of the horizon
+    return Seq(Len(vals(A.self)), lambda i: ops.simp(ops.to_z3(rel.fn(i)) - ops.to_z3(rel.fn(0))), kind="Int64Index")
+
+
+contract(f"{FH}::ForecastingHorizon.to_indexer", "C02", cases=SELF_CASES + ["rel|Int64Index|first", "abs|Int64Index|first"],
+         frame=lambda A: [A.self],
+         inputs=_self_inputs(lambda B, case: {"cutoff": B.int("cutoff"), "from_cutoff": not case.endswith("|first")}),
+         pre=lambda A: Len(vals(A.self)) >= 1 if A.from_cutoff is not True else True,
          raises=[("ValueError", lambda A: (not A.self.attrs["_is_relative"]) and A.cutoff is None)],
-         returns=lambda A: Seq(Len(vals(A.self)), lambda i: ops.simp(ops.to_z3(rel_vals(A).fn(i)) - 1), kind="Int64Index"))
+         returns=_indexer_returns)
 
 
 # --------------------------------------------------------------------------- level 2 ------
